@@ -1,8 +1,8 @@
 #!/bin/bash
 # seed_agent.sh <PROP> <checks...> : validate both candidate changes delivered by the sub-agent for <PROP>
-P=$1; shift
+P=$1; shift; WT=${WT:-$P}
 for i in 1 2; do
-  [ -f /tmp/wt_$P/_seed/patch$i.diff ] || continue
-  echo "=== $P-${SEED_TAG:-agent}-$i"
-  /verif/tools/seed.py $P-${SEED_TAG:-agent}-$i $P /tmp/wt_$P/_seed/patch$i.diff /tmp/wt_$P/_seed/demo$i.py "$(head -c 400 /tmp/wt_$P/_seed/notes$i.md | tr '\n' ' ')" "$@" 2>&1 | grep -E "KEPT|tests_pass|demo_rc|PATCH|\"rc\"|\"C[0-9]+\": \{|detected_by" | tr -d '\n' | sed 's/  */ /g'; echo
+  [ -f /tmp/wt_$WT/_seed/patch$i.diff ] || continue
+  echo "=== ${WT}-${SEED_TAG:-agent}-$i"
+  /verif/tools/seed.py ${WT}-${SEED_TAG:-agent}-$i $P /tmp/wt_$WT/_seed/patch$i.diff /tmp/wt_$WT/_seed/demo$i.py "$(head -c 400 /tmp/wt_$WT/_seed/notes$i.md | tr '\n' ' ')" "$@" 2>&1 | grep -E "KEPT|tests_pass|demo_rc|PATCH|\"rc\"|\"C[0-9]+\": \{|detected_by" | tr -d '\n' | sed 's/  */ /g'; echo
 done
